@@ -4,6 +4,7 @@
 cd "$(dirname "$0")"
 out=seeded/RESULTS.tsv
 jobs=${1:-2}
+only=${2:-}        # optional regex on the seed name: only these are run and merged into the existing table
 tmp=$(mktemp -d /tmp/osu-seedrun-XXXXXX)
 one() {
   d=$1; s=$(basename $d); p=${s%-*}
@@ -18,7 +19,10 @@ one() {
   echo -e "$s\t$p $extra\t$ex\t$ob\t$conf" > $2/$s.tsv
 }
 export -f one
-ls -d seeded/C*-*/ | xargs -P $jobs -I{} bash -c "one {} $tmp"
+ls -d seeded/C*-*/ | grep -E "${only:-.}" | xargs -P $jobs -I{} bash -c "one {} $tmp"
+if [ -n "$only" ] && [ -f $out ]; then
+  tail -n +2 $out | while IFS= read -r line; do s=$(echo "$line" | cut -f1); [ -f $tmp/$s.tsv ] || echo "$line" > $tmp/$s.tsv; done
+fi
 echo -e "seed\tproperty\texit\tfirst_failed_obligation\tconfirmed_replay" > $out
 cat $tmp/*.tsv | sort >> $out
 rm -rf $tmp
